@@ -331,6 +331,26 @@ def create_metric_classic(with_state=True):
     return ev
 
 
+NEWSIG = 'new.signal'
+
+
+def create_signal(condition):
+    """A new alert signal descriptor (with state) under the alert system, signalling `condition` (indexed attribute)."""
+    def ev(p):
+        _need(p, NEWSIG, present=False)
+        _need(p, AS)
+        _need(p, condition)
+        parent = p.mdib.descriptions.handle.get_one(AS).parent_handle
+        cls = p.mdib.data_model.get_descriptor_container_class(_names().AlertSignalDescriptor)
+        d = cls(handle=NEWSIG, parent_handle=parent)
+        d.ConditionSignaled = condition
+        d.Manifestation = _pm().AlertSignalManifestation.VIS
+        d.Latching = False
+        with p.mdib.descriptor_transaction() as tr:
+            tr.add_descriptor(d, state_container=p.mdib.data_model.mk_state_container(d))
+    return ev
+
+
 def create_metric_entity(p):
     _need(p, NEW, present=False)
     _need(p, CH)
@@ -559,6 +579,9 @@ EVENTS = [
     ('create-metric', create_metric_classic(True)),
     ('create-metric-nostate', create_metric_classic(False)),
     ('create-metric-entity', create_metric_entity),
+    ('create-signal(ac)', create_signal(AC)),
+    ('create-signal(ac2)', create_signal(AC2)),
+    ('delete(NEWSIG)', delete(NEWSIG)),
     ('create-channel+metric', create_channel_with_metric),
     ('update-descr(N1)', update_descriptor(NUM1)),
     ('update-descr+state(N1)', update_descriptor(NUM1, with_state=True, value='b')),
